@@ -238,7 +238,7 @@ def _fault_kind(applied: str, ref) -> str:
 
 
 def plan(tier: str, seed: int, scale: float = 1.0) -> List[Dict[str, Any]]:
-    nshards, n = (32, 200) if tier == "quick" else (256, 220)
+    nshards, n = (48, 200) if tier == "quick" else (256, 220)
     return [{"seed": seed * 4099 + i, "n": max(10, int(n * scale)), "timeout": 900} for i in range(nshards)]
 
 
